@@ -29,7 +29,7 @@ func NewAcc() *Acc {
 	return &Acc{Counters: map[string]int{}, Distinct: map[string]int{}}
 }
 
-func (a *Acc) Inc(key string)        { a.Counters[key]++ }
+func (a *Acc) Inc(key string)         { a.Counters[key]++ }
 func (a *Acc) AddN(key string, n int) { a.Counters[key] += n }
 
 // Mark records n non-trivial distinct cases under a workload digest.
@@ -109,7 +109,7 @@ type Prop interface {
 
 var registry = map[string]Prop{}
 
-func Register(p Prop) { registry[p.ID()] = p }
+func Register(p Prop)    { registry[p.ID()] = p }
 func Get(id string) Prop { return registry[id] }
 func IDs() []string {
 	var out []string
